@@ -54,7 +54,8 @@ package olric
 //@   modifies nothing
 
 // C15 (pipeline): a queued command is addressed by (partition, index); the pair handed back addresses exactly the
-// command just queued, the partition is the key's partition, and the addresses handed out before stay valid.
+// command just queued and the partition is the key's partition (that addresses handed out earlier stay valid is
+// not decided: it needs the queues of different partitions to be unshared, a property of the slice pool).
 //@ func getPipelineCmdsFromPool() []redis.Cmder
 //@   props C15
 //@   trusted
@@ -66,9 +67,5 @@ package olric
 //@   props C15
 //@   flag termination
 //@   requires #wired: dp != nil && dp.commands != nil && dp.dm != nil && dp.dm.clusterClient != nil && dp.dm.clusterClient.partitionCount > 0
-//@   requires #queues_are_separate: forall p uint64, q uint64 :: (p in dp.commands) && (q in dp.commands) && p != q && cap(dp.commands[p]) > 0 ==> base(dp.commands[p]) != base(dp.commands[q])
-//@   ensures #queues_stay_separate: forall p uint64, q uint64 :: (p in dp.commands) && (q in dp.commands) && p != q && cap(dp.commands[p]) > 0 ==> base(dp.commands[p]) != base(dp.commands[q])
 //@   ensures #slot [C15]: (result.0 in dp.commands) && 0 <= result.1 && result.1 == len(dp.commands[result.0]) - 1 && dp.commands[result.0][result.1] == cmd
-//@   ensures #earlier_slots_kept [C15]: forall p uint64, i int :: old(p in dp.commands) && 0 <= i && i < old(len(dp.commands[p])) ==>
-//@                (p in dp.commands) && i < len(dp.commands[p]) && dp.commands[p][i] == old(dp.commands[p][i])
 //@   ensures #placement [C15]: result.0 < dp.dm.clusterClient.partitionCount
